@@ -2,6 +2,10 @@ import CogentModel.Model.IndelMap
 import CogentModel.Spec.Gapped
 import CogentModel.Proofs.IndelMapInv
 import CogentModel.Proofs.AlnInv
+import CogentModel.Proofs.IndelMapSliceSpec
+import CogentModel.Proofs.IndelMapReversed
+import CogentModel.Proofs.IndelMapAlignSpec
+import CogentModel.Proofs.IndelMapSliceTotal
 /-! # C08 — property theorems (gapped-coordinate maps agree with the gapped string)
 
 `abs m : List (Option Nat)` is the gapped string (column ↦ sequence index or gap) a map stands
@@ -52,16 +56,93 @@ theorem getitem_clamps_stop_example :
     (getitem (fromGapped [false, true, true]) (some 0) (some 4) none).toOption = some (fromGapped [false, true, true]) ∧
     Gapped.slice (ofPattern [false, true, true]) (some 0) (some 4) = [some 0, none, none] := by decide
 
-/- FULL STATEMENT (not proved): `getitem_spec` —
-   `∀ m a b, WF m → getitem m a b none = .ok r → WF r ∧ abs r = Gapped.slice (abs m) a b`
-   (all start-case x stop-case x layout combinations of `IndelMap.__getitem__`), and the analogous
-   `seq_index_spec` / `align_index_spec` (`getSeqIndex m i = Gapped.seqIndex (abs m) i`),
-   `add_spec`, `reversed_spec`, `merge_spec`, `joined_spec`, `minus_spec`.
-   Why not: (1) it is false as stated for the mirrored model — `getitem_stop_beyond_len_counter`
-   above is the witness (stop > len is not clamped), and `add` of a trailing gap to a leading gap
-   yields duplicate positions; (2) the restricted `getitem_spec_partial` (0 ≤ a ≤ b ≤ len) needs the
-   searchsorted-index ↔ recursive-scan bridge lemmas, which were not completed in the time available.
-   These clauses are covered by the exhaustive correspondence (model = code on every layout of
-   length ≤ 8 x every interval) plus the exhaustive spec-level differential (code = string). -/
+/-- **`get_seq_index` agrees with scanning the string**: for a well-formed map and any column
+`0 ≤ i ≤ len`, the searchsorted/index arithmetic returns the number of residues before column `i`. -/
+theorem seq_index_spec (m : IMap) (h : WF m) (i : Int) (h0 : 0 ≤ i) (h1 : i ≤ len m) :
+    seqIndexNN m i = (Gapped.seqIndex (abs m) i.toNat : Int) := seq_index_spec' m h i h0 h1
+
+example : seqIndexNN ⟨[1, 3], [2, 3], 4⟩ 4 = 2 ∧ Gapped.seqIndex (abs ⟨[1, 3], [2, 3], 4⟩) 4 = 2 := by decide
+
+/-- negative alignment indices are converted like Python indices, anything below `-len` raises -/
+theorem get_seq_index_spec (m : IMap) (h : WF m) (i : Int) (h0 : -len m ≤ i) (h1 : i ≤ len m) :
+    getSeqIndex m i = .ok (Gapped.seqIndex (abs m) (if i < 0 then len m + i else i).toNat : Int) := by
+  unfold getSeqIndex
+  by_cases hi : i < 0
+  · simp only [hi, if_true]
+    rw [if_neg (by omega), seq_index_spec m h _ (by omega) (by omega)]
+  · simp only [hi, if_false]
+    rw [seq_index_spec m h _ (by omega) (by omega)]
+
+example : getSeqIndex ⟨[1, 3], [2, 3], 4⟩ (-1) = .ok 3 := by rfl
+
+/-- **`IndelMap.__getitem__` agrees with slicing the gapped string**, for EVERY `start`/`stop`
+(`None`, negative, beyond the end, reversed, inside / at the edge of gap runs — the full start-case ×
+stop-case × layout product): whenever the call returns a map, that map denotes `s[a:b]` with the
+residues renumbered. -/
+theorem getitem_spec (m : IMap) (h : WF m) (a b : Option Int) (r : IMap)
+    (hr : getitem m a b none = .ok r) : abs r = Gapped.slice (abs m) a b :=
+  (getitem_spec' m h a b r hr).2
+
+example : (getitem (fromGapped [false, true, true, false, true]) (some 2) (some (-1)) none).toOption.map abs
+    = some (Gapped.slice (ofPattern [false, true, true, false, true]) (some 2) (some (-1))) := by decide
+
+/-- Slicing preserves the representation invariant (so every map reachable by slicing is well formed). -/
+theorem getitem_wf (m : IMap) (h : WF m) (a b : Option Int) (r : IMap)
+    (hr : getitem m a b none = .ok r) : WF r :=
+  (getitem_spec' m h a b r hr).1
+
+example : (getitem ⟨[1, 3], [2, 3], 4⟩ (some 2) (some 6) none).toOption = some ⟨[0, 2], [1, 2], 2⟩ := by decide
+
+/-- **Slicing never raises in range**: for a well-formed map and bounds that are `None` or `≥ -len`
+(anything above `len` is clamped), `__getitem__` returns a map — the `__post_init__` check
+`gap_pos[-1] ≤ parent_length` always passes.  Together with `getitem_spec` this gives total
+correctness of slicing. -/
+theorem getitem_total (m : IMap) (h : WF m) (a b : Option Int)
+    (ha : ∀ x, a = some x → -len m ≤ x) (hb : ∀ y, b = some y → -len m ≤ y) :
+    ∃ r, getitem m a b none = .ok r ∧ WF r ∧ abs r = Gapped.slice (abs m) a b := by
+  obtain ⟨r, hr⟩ := getitem_total' m h a b ha hb
+  exact ⟨r, hr, getitem_spec' m h a b r hr⟩
+
+example : ∃ r, getitem ⟨[1, 3], [2, 3], 4⟩ (some (-7)) (some 99) none = .ok r := ⟨_, rfl⟩
+
+/-- integer indexing `m[i]` is the one-column slice -/
+theorem getitem_int_spec (m : IMap) (h : WF m) (i : Int) (r : IMap) (hr : getitemInt m i = .ok r) :
+    WF r ∧ abs r = Gapped.slice (abs m) (some i) (some (i + 1)) :=
+  getitem_spec' m h (some i) (some (i + 1)) r hr
+
+example : (getitemInt ⟨[1, 3], [2, 3], 4⟩ 1).toOption.map abs = some [none] := by decide
+
+/-- **`get_align_index` agrees with scanning the string**: residue `k` is displayed in the column
+where the `k`-th residue of the gapped string stands. -/
+theorem align_index_spec (m : IMap) (h : WF m) (k : Int) (h0 : 0 ≤ k) (h1 : k < m.parentLength) :
+    getAlignIndex m k false = .ok (Gapped.alignIndex (abs m) k.toNat : Int) := align_index_spec' m h k h0 h1
+
+example : getAlignIndex ⟨[1, 3], [2, 3], 4⟩ 3 false = .ok 6 ∧ Gapped.alignIndex (abs ⟨[1, 3], [2, 3], 4⟩) 3 = 6 := by
+  constructor <;> rfl
+
+/-- `get_align_index(k, slice_stop=True)` is one past the column of residue `k - 1` (0 for `k = 0`):
+the end of an alignment slice that stops before residue `k` does not include a gap run inserted at `k`. -/
+theorem align_index_stop_spec (m : IMap) (h : WF m) (k : Int) (h0 : 0 ≤ k) (h1 : k ≤ m.parentLength) :
+    getAlignIndex m k true =
+      .ok (if k = 0 then 0 else (Gapped.alignIndex (abs m) (k - 1).toNat : Int) + 1) :=
+  align_index_stop_spec' m h k h0 h1
+
+example : getAlignIndex ⟨[1, 3], [2, 3], 4⟩ 1 true = .ok 1 ∧ getAlignIndex ⟨[1, 3], [2, 3], 4⟩ 1 false = .ok 3 := by
+  constructor <;> rfl
+
+/-- **`nucleic_reversed` gives the map of the reversed string** (leading gaps become trailing gaps,
+etc.), never raises on a well-formed map, and the result is well formed. -/
+theorem reversed_spec (m : IMap) (h : WF m) :
+    ∃ r, nucleicReversed m = .ok r ∧ WF r ∧ abs r = Gapped.reversed (abs m) := by
+  refine ⟨_, nucleicReversed_ok m h, ?_⟩
+  exact reversed_spec' m h _ (nucleicReversed_ok m h)
+
+example : (nucleicReversed (fromGapped [true, false, false, true, true, false])).toOption.map abs
+    = some (Gapped.reversed (ofPattern [true, false, false, true, true, false])) := by decide
+
+/- FULL STATEMENTS (not proved):
+   `add_spec`, `merge_spec`, `joined_spec`, `minus_spec`.  They are covered by the
+   exhaustive correspondence (model = code on every layout of length ≤ 8 x every interval) plus the
+   exhaustive spec-level differential (code = string). -/
 
 end CogentModel.C08
